@@ -20,11 +20,35 @@ SEEDS = {
  "seed_shift_huge_const": "library;\nconst A: u256 = 0x1u256 << 0xFFFFFFFFFFFFu64;\npub fn f() -> u256 { A }\n",
 }
 
+def norm_site(site):
+    """file of the panic site relative to the repository root, without line number (stable key)"""
+    f = site.rsplit(":", 1)[0]
+    m = re.search(r"((?:sway-[a-z-]+|forc[a-z-]*|swayfmt)/.*)$", f)
+    return m.group(1) if m else f
+
+# multi-module template packages: {file: text}; entry is lib.sw
+TEMPLATES = {
+ "tpl_shapes": {
+  "lib.sw": "library;\npub mod shapes;\npub mod user;\n",
+  "shapes.sw": "library;\npub struct Point { pub x: u64, pub y: u64, z: u64 }\nimpl Point { pub fn new(x: u64, y: u64) -> Self { Self { x, y, z: 0 } } pub fn z(self) -> u64 { self.z } }\npub enum Shape { Dot: Point, Line: (Point, Point), Empty: () }\npub trait Area { fn area(self) -> u64; }\nimpl Area for Shape { fn area(self) -> u64 { match self { Shape::Dot(_) => 0, Shape::Line((a, b)) => a.x + b.x, Shape::Empty => 0 } } }\n",
+  "user.sw": "library;\nuse ::shapes::{Point, Shape, Area};\npub fn f(p: Point) -> u64 { let Point { x, y, .. } = p; x + y }\npub fn g(s: Shape) -> u64 { match s { Shape::Dot(Point { x, y, .. }) => x + y, Shape::Line((Point { x, .. }, b)) => x + b.y, Shape::Empty => s.area() } }\n#[test]\nfn t() { assert(f(Point::new(1, 2)) == 3); assert(g(Shape::Empty) == 0); }\n",
+ },
+ "tpl_generic": {
+  "lib.sw": "library;\npub mod boxes;\npub mod uses;\n",
+  "boxes.sw": "library;\npub struct Boxed<T> { pub v: T, pub n: u64 }\nimpl<T> Boxed<T> { pub fn get(self) -> T { self.v } }\npub enum Either<A, B> { L: A, R: B }\npub const LIMIT: u64 = 7;\npub fn pick<A>(e: Either<A, A>) -> A { match e { Either::L(a) => a, Either::R(b) => b } }\n",
+  "uses.sw": "library;\nuse ::boxes::*;\npub fn h(b: Boxed<u64>) -> u64 { let Boxed { v, n } = b; if n > LIMIT { v } else { pick(Either::L(v)) } }\npub fn k(e: Either<Boxed<bool>, u8>) -> u64 { match e { Either::L(Boxed { v: true, n }) => n, Either::L(Boxed { v: false, .. }) => 0, Either::R(x) => x.as_u64() } }\n#[test]\nfn t() { assert(h(Boxed { v: 3, n: 9 }) == 3); }\n",
+ },
+ "tpl_contract": {
+  "main.sw": "contract;\nmod data;\nuse data::{Rec, Kind};\nstorage { r: Rec = Rec { a: 1, k: Kind::A }, n: u64 = 5 }\nabi C { #[storage(read)] fn get() -> u64; #[storage(write)] fn set(r: Rec); }\nimpl C for Contract {\n #[storage(read)] fn get() -> u64 { let Rec { a, k } = storage.r.read(); match k { Kind::A => a, Kind::B(x) => x + storage.n.read() } }\n #[storage(write)] fn set(r: Rec) { storage.r.write(r); }\n}\n",
+  "data.sw": "library;\npub enum Kind { A: (), B: u64 }\npub struct Rec { pub a: u64, pub k: Kind }\n",
+ },
+}
+
 def mutate(rng, src):
     toks = TOKEN.findall(src)
     idx = [i for i, t in enumerate(toks) if not t.isspace()]
     if not idx: return src, "none"
-    kind = rng.choice(["type", "type", "del", "dup_line", "swap_ident", "big_lit", "del_span", "zero_lit", "ins_tok"])
+    kind = rng.choice(["type", "type", "del", "dup_line", "swap_ident", "big_lit", "del_span", "zero_lit", "ins_tok", "rename_ident", "rename_ident"])
     if kind == "type":
         c = [i for i in idx if toks[i] in TYPES]
         if c:
@@ -39,6 +63,12 @@ def mutate(rng, src):
         c = [i for i in idx if re.match(r"[A-Za-z_]", toks[i])]
         if len(c) >= 2:
             a, b = rng.sample(c, 2); toks[a], toks[b] = toks[b], toks[a]
+    elif kind == "rename_ident":
+        # replace ONE occurrence of an identifier (field, variant, function, type name) by a fresh or a sibling name
+        c = [i for i in idx if re.match(r"[a-z_A-Z][A-Za-z0-9_]*$", toks[i]) and toks[i] not in ("library", "contract", "script", "pub", "fn", "let", "match", "use", "mod", "struct", "enum", "impl", "trait", "self", "Self", "abi", "storage", "if", "else", "for", "while", "return", "const")]
+        if c:
+            i = rng.choice(c)
+            toks[i] = rng.choice(["zz", "Zz", toks[rng.choice(c)], toks[i] + "2"])
     elif kind == "big_lit":
         c = [i for i in idx if re.match(r"\d", toks[i])]
         if c: toks[rng.choice(c)] = rng.choice(["18446744073709551615", "18446744073709551616", "0xffffffffffffffffffffffffffffffffffffffffffffffffffffffffffffffff", "340282366920938463463374607431768211456", "256", "64"])
@@ -104,6 +134,17 @@ def run(ctx):
     cases = []
     for name, src in SEEDS.items():
         cases.append((name, "main.sw" if src.startswith("contract") else "lib.sw", src, "seed", name))
+    ntpl = 10 if ctx.quick else 80
+    for tname, files in TEMPLATES.items():
+        entry = "main.sw" if "main.sw" in files else "lib.sw"
+        cases.append((tname, entry, dict(files), "template", tname))
+        for k in range(ntpl):
+            f2 = dict(files)
+            victim = ctx.rng.choice(sorted(f2))
+            f2[victim], kind = mutate(ctx.rng, f2[victim])
+            if ctx.rng.random() < 0.3:
+                v2 = ctx.rng.choice(sorted(f2)); f2[v2], k2 = mutate(ctx.rng, f2[v2]); kind += "+" + k2
+            cases.append(("%s_m%d" % (tname, k), entry, f2, kind, tname))
     nsrc, nmut = (10, 6) if ctx.quick else (120, 30)
     for cname, fname, src in corpus_sources(ctx.rng, nsrc):
         for k in range(nmut):
@@ -112,7 +153,7 @@ def run(ctx):
             cases.append(("m_%s_%d" % (re.sub(r"\W", "_", cname)[:30], k), fname, m, kind, cname))
     dirs = []
     for name, fname, src, kind, origin in cases:
-        dirs.append(sway.write_pkg(base, name, {fname: src}, entry=fname))
+        dirs.append(sway.write_pkg(base, name, src if isinstance(src, dict) else {fname: src}, entry=fname))
     def one(chunk):
         rc, o = rust.run(binp, chunk, timeout=1200)
         res = []
@@ -138,7 +179,7 @@ def run(ctx):
                 except Exception: continue
                 if r.get("status") == "panic":
                     slug = re.sub(r"[^a-z]+", "-", re.sub(r"\d+", "", r.get("msg", "").lower()))[:48].strip("-")
-                    ctx.violation("panic@%s#%s" % (r.get("site", "?").rsplit(":", 1)[0], slug), {"package": r["pkg"], "profile": "release", "panic": r},
+                    ctx.violation("panic@%s#%s" % (norm_site(r.get("site", "?")), slug), {"package": r["pkg"], "profile": "release", "panic": r},
                                   "compiler panicked (release profile) at %s: %s" % (r.get("site"), r.get("msg", "")[:200]))
     chunks = [dirs[i::NCPU] for i in range(NCPU) if dirs[i::NCPU]]
     with cf.ThreadPoolExecutor(max_workers=NCPU) as ex:
@@ -158,19 +199,19 @@ def run(ctx):
         if st == "panic":
             # stable key: file + slug of the message (no line numbers, no values)
             slug = re.sub(r"[^a-z]+", "-", re.sub(r"\d+", "", r.get("msg", "").lower()))[:48].strip("-")
-            key = "panic@%s#%s" % (r.get("site", "?").rsplit(":", 1)[0], slug)
+            key = "panic@%s#%s" % (norm_site(r.get("site", "?")), slug)
             ctx.violation(key, {"package": d, "source": src, "mutation": kind, "origin": origin, "panic": r},
                           "compiler panicked at %s: %s" % (r.get("site"), r.get("msg", "")[:200]))
         elif st == "ice":
             key = "ice:" + hashlib.sha256(re.sub(r"\d+", "N", r.get("msg", "")[:200]).encode()).hexdigest()[:10]
             ctx.violation(key, {"package": d, "source": src, "mutation": kind, "origin": origin, "error": r},
                           "internal compiler error: %s" % r.get("msg", "")[:300])
-    distinct = len({hashlib.sha256(c[2].encode()).hexdigest() for c in cases})
+    distinct = len({hashlib.sha256(json.dumps(c[2], sort_keys=True).encode()).hexdigest() for c in cases})
     ctx.coverage.update({
         "explanation": "Partial. Coq part = the no-panic/totality theorems of the modelled cores, re-checked here: %s. Everything else is a search: mutated corpus/seed packages compiled through the full pipeline under catch_unwind; a panic, an abort or an 'internal compiler error' is a violation keyed by its panic site." % (", ".join(t for _, t in thms) or "(none present in this tree)"),
         "evaluations": len(cases), "distinct_nontrivial": distinct,
         "rule": "seed programs (known crash shapes) + single-file e2e should_pass/should_fail packages mutated at token level (type swap, token/line deletion or duplication, identifier swap, boundary literals, stray punctuation); distinct by source text",
-        "samples": [{"name": c[0], "mutation": c[3], "origin": c[4], "source_head": c[2][:160]} for c in cases[len(SEEDS):len(SEEDS) + 3]],
+        "samples": [{"name": c[0], "mutation": c[3], "origin": c[4], "source_head": (c[2] if isinstance(c[2], str) else json.dumps(c[2]))[:160]} for c in cases[len(SEEDS):len(SEEDS) + 3]],
         "outcomes": stats, "mutation_kinds": kinds, "core_theorems": [t for _, t in thms],
     })
     ctx.assumptions += ["the quantifier over all package sources is only sampled; the theorems cover the modelled cores only"]
